@@ -524,6 +524,154 @@ def leg_fragment(ck, drv, name, reqs, texts):
     ck.compare(name, reqs2, real, model)
 
 
+# ---------------------------------------------------------------------------------------------------------------
+# the trees the REAL pipeline builds: every expression of decompiled generated methods must be well formed (the
+# hypothesis of print_parse), print to the model's lexemes and parse (javac) to the tree it is
+
+class Unsupported(Exception):
+    pass
+
+
+def words_of(ir, e):
+    """prefix words (the driver's `jexpr` notation) of a real IR expression"""
+    vm = getattr(e, "var_map", {})
+    sub = lambda key: words_of(ir, vm[key])  # noqa: E731
+    if isinstance(e, ir.Constant):
+        if e.type in ("Z", "Ljava/lang/Class;") or isinstance(e.cst, str) or isinstance(e.cst, float) or isinstance(e.cst2, float):
+            raise Unsupported("constant of type %s" % e.type)
+        v = e.cst2 if e.type in "IJB" else e.cst
+        return ["const", str(int(v)), "1" if e.type == "J" else "0"]
+    if isinstance(e, ir.ThisParam):
+        return ["this"]
+    if isinstance(e, ir.Param):
+        return ["param", str(e.v)]
+    if isinstance(e, ir.Variable):
+        return ["var", str(e.name)]
+    if isinstance(e, ir.BaseClass):
+        return ["base", e.cls]
+    if isinstance(e, ir.BinaryCompExpression):
+        if e.op == "cmp":
+            return ["cmp", "1" if e.type == "J" else "0"] + sub(e.arg1) + sub(e.arg2)
+        return ["cond", e.op] + sub(e.arg1) + sub(e.arg2)       # op already replaced by a printed if-<test>z
+    if isinstance(e, ir.BinaryExpression):
+        return ["bin", e.op] + sub(e.arg1) + sub(e.arg2)
+    if isinstance(e, ir.CastExpression):
+        t = e.op.strip("()")
+        if t not in PRIMS.values():
+            raise Unsupported("cast " + e.op)
+        return ["cast", t] + sub(e.arg)
+    if isinstance(e, ir.UnaryExpression):
+        return ["un", e.op] + sub(e.arg)
+    if isinstance(e, ir.CheckCastExpression):
+        return ["ccast", dotted(e.type)] + sub(e.arg)
+    if isinstance(e, ir.ConditionalExpression):
+        return ["cond", e.op] + sub(e.arg1) + sub(e.arg2)
+    if isinstance(e, ir.ConditionalZExpression):
+        a = vm[e.arg]
+        if isinstance(a, ir.BinaryCompExpression):
+            return ["condzcmp", e.op] + words_of(ir, a.var_map[a.arg1]) + words_of(ir, a.var_map[a.arg2])
+        t = str(a.get_type())
+        return ["condz", e.op, "bool" if t == "Z" else ("num" if t in "VBSCIJFD" else "ref")] + sub(e.arg)
+    if isinstance(e, ir.InstanceExpression):
+        return ["getf", e.name] + sub(e.arg)
+    if isinstance(e, ir.StaticExpression):
+        return ["gets", e.cls, e.name]
+    if isinstance(e, ir.ArrayLoadExpression):
+        return ["aload"] + sub(e.array) + sub(e.idx)
+    if isinstance(e, ir.ArrayLengthExpression):
+        return ["alen"] + sub(e.array)
+    raise Unsupported(type(e).__name__)
+
+
+def statement_expressions(ir, ins):
+    """the top-level expressions of one IR statement"""
+    vm = getattr(ins, "var_map", {})
+    if isinstance(ins, ir.AssignExpression):
+        return [ins.rhs]
+    if isinstance(ins, ir.MoveExpression):
+        return [vm[ins.rhs]]
+    if isinstance(ins, ir.ReturnInstruction):
+        return [vm[ins.arg]] if ins.arg is not None else []
+    if isinstance(ins, (ir.ConditionalExpression, ir.ConditionalZExpression)):
+        return [ins]
+    if isinstance(ins, ir.SwitchExpression):
+        return [vm[ins.src]]
+    return []
+
+
+def leg_pipeline(ck, drv, workdir, n_methods):
+    import importlib
+    from gen import translate as gt
+    from harness import javagen, c21diff
+    from harness.fw import REPO
+    _dex, _oi, ir, wr = gt._load(REPO)
+    DEX = importlib.import_module("androguard.core.dex").DEX
+    Analysis = importlib.import_module("androguard.core.analysis.analysis").Analysis
+    DvMethod = importlib.import_module("androguard.decompiler.decompile").DvMethod
+    import random
+    rng = random.Random("c21-pipeline-%d" % ck.seed)
+    reqs, real, texts, exps, where = [], [], [], [], []
+    skipped = {}
+    nm = 0
+    for start in range(0, n_methods, 50):
+        ms = [javagen.gen_method(rng, "m%d" % i, level=rng.choice((0, 1, 1, 2))) for i in range(min(50, n_methods - start))]
+        data, _codes = c21diff.build_dex(ms)
+        d = DEX(data)
+        dx = Analysis(d)
+        for m in (m for c in d.get_classes() for m in c.get_methods()):
+            try:
+                dv = DvMethod(dx.get_method(m))
+                dv.process()
+                dv.get_source()
+                nodes = list(dv.graph.nodes) if getattr(dv, "graph", None) is not None else []
+            except Exception as ex:  # noqa   (crashes of the decompiler are the differential leg's business)
+                skipped["decompiler:" + type(ex).__name__] = skipped.get("decompiler:" + type(ex).__name__, 0) + 1
+                continue
+            nm += 1
+            seen = set()
+            for node in nodes:
+                try:
+                    inss = list(node.get_ins())
+                except Exception:  # noqa
+                    continue
+                for ins in inss:
+                    for e in statement_expressions(ir, ins):
+                        if id(e) in seen:
+                            continue
+                        seen.add(id(e))
+                        try:
+                            words = words_of(ir, e)
+                        except Unsupported as u:
+                            skipped[str(u)] = skipped.get(str(u), 0) + 1
+                            continue
+                        exp, text, r = observe(ir, wr, e)
+                        reqs.append("jexpr " + " ".join(words))
+                        real.append(r); texts.append(text); exps.append(exp)  # noqa: E702
+                        where.append((start, str(m.get_name())))
+    if not reqs:
+        return
+    replies = drv.ask(reqs)
+    parsed = [parse_reply(x) for x in replies]
+    jtrees = javac_trees(workdir, [t if t is not None else "?" for t in texts])
+    real2, model = [], []
+    notwf = 0
+    for i, (p, x, r) in enumerate(zip(parsed, replies, real)):
+        real2.append("wf=1 ;; " + r + " || " + jtrees[i])
+        model.append("wf=%s ;; %s || %s" % (p.get("wf"), p.get("toks"), p.get("tree")) if "toks" in p else x)
+        if p.get("wf") != "1":
+            notwf += 1
+        if exps[i] is not None and jtrees[i] != exps[i]:
+            ck.fail({"kind": "jexpr-pipeline", "tree": reqs[i][6:], "method": where[i][1]},
+                    "an expression of a decompiled method is printed as text that does not parse (javac) to that expression", None,
+                    expected=exps[i], observed={"text": texts[i], "javac": jtrees[i]})
+    # a tree of the real pipeline outside WF is a mismatch of this stream (the model's hypothesis would not cover real output)
+    ck.compare("expression trees of decompiled methods: well formed, lexemes, javac tree", reqs, real2, model)
+    ck.cover(evaluations=len(reqs), distinct=set(reqs),
+             samples=[{"request": reqs[i], "text": texts[i], "model": replies[i]} for i in (0, len(reqs) // 2)],
+             dist={"pipeline_methods": nm, "pipeline_expression_trees": len(reqs), "pipeline_trees_not_wf": notwf,
+                   "pipeline_skipped": skipped})
+
+
 def replay(ck, c):
     import tempfile
     import shutil
